@@ -11,6 +11,7 @@ var borrowed = []struct{ dst, src, engine string }{
 	{"C14", "C15", "coop"}, // an unchanged rule must stay in force while the list is being rebuilt
 	{"C03", "C12", "coop"}, // the breaker's state machine under concurrent callers
 	{"C02", "C09", "coop"}, // the window a reject rule reads must not lose / invent tokens around a bucket rollover
+	{"C16", "C01", "par"},  // "told of completion exactly once" also when Exit is called from two goroutines at once
 	{"C08", "C09", "coop"}, // "nothing inside the window is lost" also when the rollover is contended
 }
 
